@@ -113,7 +113,11 @@ static inline bool inv(const B &b) {
 }
 static inline void any_state(B &b) {
     for (unsigned i = 0; i < NW; i++) b.storage_[i] = vf_any<W>();
+#ifdef IDX                            // case split: the index is concrete in this query (all values 0..MaxIndex are enumerated)
+    b.index_ = IDX;
+#else
     b.index_ = vf_u32();
+#endif
     vf_assume(inv(b));
 }
 static inline WIDE any_wide() {
@@ -165,6 +169,7 @@ static inline bool m_sub(M &m, W n, unsigned idx) {
     if (m < t) return false;
     m -= t; return true;
 }
+#ifdef MUL_WHOLE
 static inline bool m_mul(M &m, W k) {          // m*k needs TOT+WB bits: split off the lowest word
     const V lo = (V)(W)m * (V)k;               // < 2^(2*WB)
     const V hi = (V)(m >> WB) * (V)k;          // < 2^TOT
@@ -173,6 +178,23 @@ static inline bool m_mul(M &m, W k) {          // m*k needs TOT+WB bits: split o
     if (r < lo || !m_fit(r)) return false;
     m = r; return true;
 }
+#else
+// m*k spelled by distributivity over the words of m:  sum_i (word_i * k) * 2^(WB*i)  in V arithmetic; "fits" = no term and no
+// partial sum reaches 2^TOT (all terms are non-negative, so this is exactly  m*k < 2^TOT)
+static inline bool m_mul(M &m, W k) {
+    V acc = 0; bool fits = true;
+    for (unsigned i = 0; i < NW; i++) {
+        const V p = (V)m_word(m, i) * (V)k;                       // < 2^(2*WB) <= 2^VBITS
+        const unsigned room = TOT - WB * i;                       // bits available at this position (>= WB)
+        if (room < 2U * WB && (p >> (room & (VBITS - 1U))) != 0) fits = false;
+        const V t = (V)(p << (WB * i));
+        const V s = acc + t;
+        if (s < acc || !m_fit(s)) fits = false;
+        acc = s;
+    }
+    m = acc; return fits;
+}
+#endif
 static inline W m_div(M &m, W d) { const W r = (W)(m % (V)d); m = m / (V)d; return r; }
 static inline void m_shr(M &m, unsigned off) { m = (off >= TOT) ? (V)0 : (m >> (off & (VBITS - 1U))); }
 static inline bool m_shl(M &m, unsigned off) {
